@@ -435,6 +435,19 @@ theorem C19_element_accepted_iff_specializes_when_bounds_checked (hchk : element
 `bounds_conform` on a table).  Does not build on a tree without the comparison. -/
 theorem C19_tie_element_bounds_checked : elementBoundsChecked = true := rfl
 
+/-- regenerated tie: among the classes of the simple types only INTEGER and REAL have another simple type's class above
+them (NUMBER); in particular BINARY is not a STRING and BOOLEAN is python's `bool`.  Does not build on a tree whose
+SimpleDataTypes.py relates the classes differently (seeded C19-e1: `class BINARY(STRING)`). -/
+theorem C19_tie_simple_type_hierarchy : simpleSubclassPairs = [(0, 5), (2, 5)] := rfl
+
+/-- **The model's conformance rule for simple base types is the runtime's `isinstance` on that class hierarchy**: for every
+value type (INTEGER, STRING, REAL, BOOLEAN, LOGICAL, the two ENUMERATIONs, BINARY) and every simple base type (those and
+NUMBER), `conforms` holds exactly when the value's class is the base type's class or a (regenerated) subclass of it — the
+full type × type matrix. -/
+theorem C19_conforms_is_the_class_hierarchy :
+    ∀ t ∈ [0, 1, 2, 3, 4, 6, 7, 8], ∀ b ∈ [0, 1, 2, 3, 4, 5, 6, 7, 8],
+      conforms (.simple t) (.simple b) = (t == b || (simpleSubclassPairs.contains (t, b))) := by decide
+
 /-- regenerated tie: ARRAY, LIST, BAG and SET define `__contains__` in the modelled form (fixes/C19-8), so
 `C19_membership_refines` speaks about the runtime.  Does not build on a tree without it. -/
 theorem C19_tie_membership_defined : membershipDefined = true := rfl
